@@ -364,3 +364,91 @@ def reindex_config(cfg):
     out["optics"] = o
     out["scat"] = _map_index(cfg["scat"], f)
     return out
+
+
+def _map_members(s, f):
+    s = dict(s)
+    if "members" in s:
+        s["members"] = [_map_members(m, f) for m in s["members"]]
+        return s
+    return f(s)
+
+
+def shift_config(cfg, dx, dy):
+    """shift scatterer and detector by the same in-plane vector"""
+    out = dict(cfg)
+
+    def f(s):
+        s = dict(s)
+        s["c"] = [s["c"][0] + dx, s["c"][1] + dy, s["c"][2]]
+        return s
+    out["scat"] = _map_members(cfg["scat"], f)
+    d = dict(cfg["det"])
+    if d["t"] == "grid":
+        org = d.get("origin") or [0.0, 0.0]
+        d["origin"] = [org[0] + dx, org[1] + dy]
+    else:
+        d["x"] = [v + dx for v in d["x"]]
+        d["y"] = [v + dy for v in d["y"]]
+    out["det"] = d
+    return out
+
+
+def grid_to_points(d):
+    """point detector holding exactly the pixel positions of a grid spec (x-major order, as the grid flattens)"""
+    x, y = grid_positions(d)
+    X, Y = np.meshgrid(x, y, indexing="ij")
+    return {"t": "points", "x": [float(v) for v in X.ravel()], "y": [float(v) for v in Y.ravel()], "z": 0.0}
+
+
+def rotate_config(cfg, alpha, rotate_pol=True):
+    """rotate scatterer configuration, polarization and detector points by alpha about the optical axis (through the origin).
+    The detector must be a point detector."""
+    c, s_ = math.cos(alpha), math.sin(alpha)
+    out = dict(cfg)
+
+    def f(s):
+        s = dict(s)
+        x, y, z = s["c"]
+        s["c"] = [c * x - s_ * y, s_ * x + c * y, z]
+        if "rot" in s:
+            a, b, g = s["rot"]
+            s["rot"] = [a, b, (g + alpha) % (2 * math.pi)]
+        return s
+    out["scat"] = _map_members(cfg["scat"], f)
+    o = dict(cfg["optics"])
+    if rotate_pol:
+        px, py = o["illum_polarization"]
+        o["illum_polarization"] = [c * px - s_ * py, s_ * px + c * py]
+    out["optics"] = o
+    d = dict(cfg["det"])
+    assert d["t"] == "points"
+    xs, ys = np.asarray(d["x"]), np.asarray(d["y"])
+    d["x"] = [float(v) for v in c * xs - s_ * ys]
+    d["y"] = [float(v) for v in s_ * xs + c * ys]
+    out["det"] = d
+    return out
+
+
+def mirror_config(cfg):
+    """mirror in the x-z plane (y -> -y): positions, polarization, orientation"""
+    out = dict(cfg)
+
+    def f(s):
+        s = dict(s)
+        x, y, z = s["c"]
+        s["c"] = [x, -y, z]
+        if "rot" in s:
+            a, b, g = s["rot"]
+            s["rot"] = [(-a) % (2 * math.pi), b, (-g) % (2 * math.pi)]
+        return s
+    out["scat"] = _map_members(cfg["scat"], f)
+    o = dict(cfg["optics"])
+    px, py = o["illum_polarization"]
+    o["illum_polarization"] = [px, -py]
+    out["optics"] = o
+    d = dict(cfg["det"])
+    assert d["t"] == "points"
+    d["y"] = [-v for v in d["y"]]
+    out["det"] = d
+    return out
